@@ -5,8 +5,14 @@ import jax.random as random
 import equinox as eqx
 
 
-def mk(D, nlead, sig, e=None, is_torus=None):
+def mk(D, nlead, sig, e=None, is_torus=None, chan_of=None):
     e = e or {}
+    if chan_of is not None:          # channel counts attached to the TYPE (for permuted-order histories), not to the position
+        lead = [e.get(f"B{i}", 2 + i) for i in range(max(0, nlead - 1))]
+        sp = [e.get(f"N{i}", 2 + (i % 2)) for i in range(D)]
+        t = is_torus if is_torus is not None else tuple(i % 2 == 0 for i in range(D))
+        blocks = {k: block(k, lead, chan_of[k], sp, D, base=1000.0 * (1 + sorted(chan_of).index(k))) for k in sig}
+        return blocks, make_mi(blocks, sig, D, t), t
     lead = [e.get(f"B{i}", 2 + i) for i in range(max(0, nlead - 1))]
     sp = [e.get(f"N{i}", 2 + (i % 2)) for i in range(D)]
     t = is_torus if is_torus is not None else tuple(i % 2 == 0 for i in range(D))
@@ -28,6 +34,16 @@ def check(req, e=None):
         y = M.from_vector(x.to_vector(), x)
     elif sc == "to_scalar->from_scalar":
         y = x.to_scalar_multi_image().from_scalar_multi_image(x.get_signature())
+        # call history: the same types in every other order, before and after, in the same process (memoised layouts)
+        if blocks_equal(y, blocks, what="round trip") is None and len(sig) > 1:
+            chan_of = {k: blocks[k].shape[nlead - 1] for k in sig}
+            for perm in list(itertools.permutations(sig))[1:4]:
+                bp, xp, _ = mk(D, nlead, list(perm), e, chan_of=chan_of)
+                yp = xp.to_scalar_multi_image().from_scalar_multi_image(xp.get_signature())
+                d = blocks_equal(yp, bp, what=f"round trip in the order {list(perm)} after the order {sig} in the same process")
+                if d:
+                    return d, call
+            y = x.to_scalar_multi_image().from_scalar_multi_image(x.get_signature())
     elif sc == "to_scalar_layout":
         y = x.to_scalar_multi_image()
         nb = nlead - 1
